@@ -49,6 +49,7 @@ type FuncContract struct {
 	Props    []string
 	Tier     string
 	Arith    string
+	FloatsRounded bool
 	Pure     bool
 	Inline   bool
 	Trusted  bool // contract assumed, body not verified (listed as assumption)
@@ -107,7 +108,7 @@ type Contracts struct {
 	File    string
 }
 
-var keywordRe = regexp.MustCompile(`^(spec|axiom|lemma|func|props|tier|arith|pure|inline|trusted|nosafety|requires|ensures|expect|panics|modifies|loop|ghost|assert|replaces|initfields|frameonly|budget|panicfree|assumes|maypanic)\b`)
+var keywordRe = regexp.MustCompile(`^(spec|axiom|lemma|func|props|tier|arith|pure|inline|trusted|nosafety|requires|ensures|expect|panics|modifies|loop|ghost|assert|replaces|initfields|frameonly|budget|panicfree|assumes|maypanic|floats)\b`)
 var labelRe = regexp.MustCompile(`^\[([A-Za-z0-9_.\-]+)\]\s*`)
 
 func (c *Contracts) newClause(kind, text string, line int) *Clause {
@@ -224,6 +225,10 @@ func ParseContracts(path string) (*Contracts, error) {
 				cur.Tier = strings.TrimSpace(rest)
 			case "arith":
 				cur.Arith = strings.TrimSpace(rest)
+			case "floats":
+				// floats rounded: every float64 +,-,*,/ of the body carries a relative rounding error of at
+				// most 2^-53 (IEEE round-to-nearest) instead of being exact real arithmetic
+				cur.FloatsRounded = strings.TrimSpace(rest) == "rounded"
 			case "pure":
 				cur.Pure = true
 			case "inline":
